@@ -5,6 +5,7 @@
 import OidcModel.Model.Codec
 import OidcModel.Model.Cfb
 import OidcModel.Model.Base64
+import OidcModel.Model.CodecGen
 
 namespace C12
 open Codec
@@ -82,5 +83,195 @@ def sealOK (plain : List UInt8) (sameKey : Option (List UInt8)) (otherKey : Opti
   if sameKey != some plain then some "decrypt-differs-from-plaintext"
   else if plain.length ≥ 4 && otherKey == some plain then some "decrypts-under-another-key"
   else none
+
+/-! ## Tolerant decoders over generic JSON documents (`Cdc.JVal`): language tags, locales lists, audience, time,
+     boolean-as-string, space-delimited arrays, display.  Every clause is stated from the DOCUMENT's point of view:
+     a documented form yields exactly the value the document contains, anything else an error or the zero value,
+     never a panic and never a value the document did not contain. -/
+open Cdc
+
+/-- how x/text reads a tag string (an ORACLE answer that comes with each document): fully valid, with this canonical
+    tag; well-formed but with an unknown subtag (`language.ValueError`); ill-formed (syntax error) -/
+inductive TagClass
+  | valid (t : Tag)
+  | unknown
+  | illformed
+  deriving DecidableEq, Repr
+
+/-- `Locale`: a valid tag decodes to itself; a well-formed tag with an unknown subtag decodes to the documented zero
+    value `und` WITHOUT an error (tolerant decoding must not reject the whole UserInfo); an ill-formed tag or a
+    non-string is an error or the zero value; the empty string is the zero value -/
+def localeOK (cls : String → TagClass) (doc : JVal) (obs : Out Tag) : Bool :=
+  match obs with
+  | .panic => false
+  | .val v =>
+    match doc with
+    | .str s => if s == "" then v == Tag.zero else
+      match cls s with
+      | .valid t => v == t
+      | _ => v == Tag.zero
+    | _ => v == Tag.zero
+  | .err =>
+    match doc with
+    | .str s => if s == "" then false else
+      match cls s with
+      | .illformed => true
+      | _ => false
+    | _ => true
+
+/-- the entries of a locales list that count: fully valid, not `und` -/
+def validTags (cls : String → TagClass) (ss : List String) : List Tag :=
+  ss.filterMap fun s => match cls s with
+    | .valid t => if t.root then none else some t
+    | _ => none
+
+def allStr : List JVal → Bool
+  | [] => true
+  | .str _ :: r => allStr r
+  | _ :: _ => false
+def strsOf : List JVal → List String
+  | [] => []
+  | .str s :: r => s :: strsOf r
+  | _ :: r => strsOf r
+
+/-- `Locales`: a space separated string or an array of strings; valid entries decode to themselves in order,
+    unknown / ill-formed / `und` entries are skipped (never an error, never another tag); `null` is the empty list;
+    an array with a non-string member or any other form is an error or the zero value -/
+def localesOK (cls : String → TagClass) (doc : JVal) (obs : Out (List Tag)) : Bool :=
+  match obs with
+  | .panic => false
+  | .val v =>
+    match doc with
+    | .null => v == []
+    | .str s => v == validTags cls (Cdc.split s " ")
+    | .arr l => if allStr l then v == validTags cls (strsOf l) else v == []
+    | _ => v == []
+  | .err =>
+    match doc with
+    | .null => false
+    | .str _ => false
+    | .arr l => !allStr l
+    | _ => true
+
+def audienceOKJ (doc : JVal) (obs : Out (List String)) : Bool :=
+  match obs with
+  | .panic => false
+  | .val v =>
+    match doc with
+    | .str s => v == [s]
+    | .arr l => allStr l && v == strsOf l
+    | _ => v == []
+  | .err =>
+    match doc with
+    | .str _ => false
+    | .arr l => !allStr l
+    | _ => true
+
+def F64.inInt64 (x : F64) : Bool := !x.nan && decide (int64Min ≤ x.floor) && decide (x.floor ≤ int64Max)
+
+/-- `Time`: a number inside the int64 range is truncated toward zero, an RFC 3339 string (`tp` = time.Parse, ns) is that
+    instant in seconds (the zero time is 0), `null` is 0; anything else is an error or 0 -/
+def timeOKJ (tp : String → Go.R Int) (doc : JVal) (obs : Out Int) : Bool :=
+  match obs with
+  | .panic => false
+  | .val v =>
+    match doc with
+    | .num x => F64.inInt64 x && v == x.toInt64
+    | .str s => match tp s with | .ok t => v == Go.fromTime t | .error _ => v == 0
+    | _ => v == 0
+  | .err =>
+    match doc with
+    | .num x => !F64.inInt64 x
+    | .str s => match tp s with | .ok _ => false | .error _ => true
+    | .null => false
+    | _ => true
+
+/-- `Bool`: `true` and the string `"true"` are true; everything else is false (or an error) -/
+def boolOKJ (doc : JVal) (obs : Out Bool) : Bool :=
+  match obs with
+  | .panic => false
+  | .val v =>
+    match doc with
+    | .bool b => v == b
+    | .str s => v == (s == "true")
+    | _ => v == false
+  | .err =>
+    match doc with
+    | .bool _ => false
+    | .str s => s != "true"
+    | _ => true
+
+/-- `SpaceDelimitedArray`: a JSON string split on single spaces; `null` leaves nothing (the code yields `[""]`, the split
+    of the empty string); any other form is an error or empty -/
+def spaceOK (doc : JVal) (obs : Out (List String)) : Bool :=
+  match obs with
+  | .panic => false
+  | .val v =>
+    match doc with
+    | .str s => v == Cdc.split s " "
+    | _ => v == [] || v == [""]
+  | .err =>
+    match doc with
+    | .str _ => false
+    | _ => true
+
+/-- `Display`: one of the four values of OIDC Core 3.1.2.1 decodes to itself, anything else leaves the zero value -/
+def displayValues : List String := ["page", "popup", "touch", "wap"]
+def displayOK (text : String) (obs : Out String) : Bool :=
+  match obs with
+  | .val v => if displayValues.contains text then v == text else v == ""
+  | _ => false
+
+/-- a document with a `locale` member, decoded into a claims type and encoded again: the decoded locale obeys `localeOK`
+    (an absent / `null` member leaves no locale), and the `locale` member written back is the document's own value, the
+    canonical text of the document's valid tag, `null` or absent - never another tag -/
+def docLocaleOK (cls : String → TagClass) (member : Option JVal) (memberText : String) (decoded : Out (Option Tag))
+    (reencoded : Option String) : Option String :=
+  match decoded with
+  | .panic => some "panic"
+  | .err =>
+    match member with
+    | none => some "absent-locale-refused"
+    | some .null => some "null-locale-refused"
+    | some d => if localeOK cls d .err then none else some "locale-refused"
+  | .val dec =>
+    let decOK := match member, dec with
+      | none, none => true
+      | some .null, none => true
+      | some d, some t => localeOK cls d (.val t)
+      | _, _ => false
+    if !decOK then some "locale-not-in-document" else
+    match reencoded with
+    | none => none
+    | some out =>
+      let canon : Option String := match member with
+        | some (.str s) => (match cls s with | .valid t => some ("\"" ++ t.s ++ "\"") | _ => none)
+        | _ => none
+      if out == "null" || out == memberText || some out == canon then none else some "reencoded-locale-invented"
+
+/-- the re-encoded document decodes again, to the same locale (`und` and "no locale" are the same answer) -/
+def secondDecodeOK (first : Option Tag) (second : Out (Option Tag)) : Option String :=
+  match second with
+  | .val s => if first.filter (fun t => !t.root) == s.filter (fun t => !t.root) then none else some "second-decode-differs"
+  | _ => some "reencoded-document-refused"
+
+/-- a document with ONE registered member in an unsupported form, strengthened: when the decoder does not refuse it, every
+    OTHER registered member of the document must have been decoded (nothing is silently dropped) -/
+def badMemberLosslessOK (doc : Codec.Obj) (bad : String) (customKeys : List String) (decoded : Option Codec.Obj) : Option String :=
+  match badMemberOK doc bad decoded with
+  | some c => some c
+  | none =>
+    match decoded with
+    | none => none
+    | some reg2 =>
+      if (keys doc).all (fun k => k == bad || customKeys.contains k || lookup reg2 k == lookup doc k) then none
+      else some "members-dropped-after-unsupported-form"
+
+/-- opening a sealed string never invents bytes: what comes out has the length of the input minus the iv -/
+def unsealOK (rawLen : Nat) (obs : Out (List UInt8)) : Option String :=
+  match obs with
+  | .panic => some "panic"
+  | .err => none
+  | .val p => if rawLen ≥ 16 && p.length + 16 == rawLen then none else some "decrypt-invented-bytes"
 
 end C12
